@@ -40,6 +40,9 @@ func (c08) Cases(tier string, race bool) int {
 func c08scalar(r *rand.Rand) interface{} {
 	switch r.Intn(5) {
 	case 0:
+		if r.Intn(3) == 0 {
+			return []float64{0.1, 19.99, 16777217, 1e-7, 2.5}[r.Intn(5)] // not all exactly representable in 32 bits
+		}
 		return float64(r.Intn(3))
 	case 1:
 		return r.Intn(2) == 0
@@ -205,6 +208,9 @@ func genConds(r *rand.Rand, sep string, sample []interface{}) ([]cond, []string)
 			spec += sep + "*"
 		case 1:
 			f := float64(r.Intn(3))
+			if r.Intn(4) == 0 {
+				f = []float64{0.1, 19.99, 16777217, 16777216, 2.5}[r.Intn(5)]
+			}
 			if rf, ok := real.(float64); ok && r.Intn(3) != 0 {
 				f = rf
 			}
@@ -292,7 +298,14 @@ func (c08) Case(c *core.Ctx) {
 	if r.Intn(5) == 0 {
 		root = g.Map(r, 1+r.Intn(4))
 	}
+	if r.Intn(3) == 0 {
+		// a long key name high up: path length in characters and in segments then disagree
+		root = jv.M{"configuration-section": root, "x": jv.M{"y": g.Value(r, 2, false)}}
+	}
 	m := mxj.Map(root)
+	if ambientDecoderOptions(c, 6) {
+		defer ResetDefaults()
+	}
 	k := c07keys[r.Intn(len(c07keys))]
 	switch r.Intn(10) {
 	case 0:
